@@ -25,11 +25,11 @@ int ZeroMatrix::compare(const Basic &o) const
     SYMENGINE_ASSERT(is_a<ZeroMatrix>(o));
 
     const ZeroMatrix &other = down_cast<const ZeroMatrix &>(o);
-    auto temp = m_->compare(*(other.m_));
+    auto temp = m_->__cmp__(*(other.m_));
     if (temp != 0) {
         return temp;
     } else {
-        return n_->compare(*(other.n_));
+        return n_->__cmp__(*(other.n_));
     }
 }
 
